@@ -300,14 +300,18 @@ CLAIMED = {
              "matrix it is parsed onto (error-independence lemmas through applyVals/applyFunc/parseTokens), so 'every piece of the "
              "accumulated transform is acceptable' is an invariant of the recursion (own text is validated before it is appended; "
              "svg/use append generated matrices), and no ValueError, TypeError, IndexError or RecursionError can leave the loop or a "
-             "container constructor. The value parsers' totality on arbitrary text (transform, "
+             "container constructor; (7) C10_render_no_abort: the same end to end for renderDoc - the very function the driver runs in the "
+             "correspondence - including the shape constructors with their length, colour, point-list and transform parsers "
+             "(every emitted record carries only acceptable transform pieces; each constructor's only failure is the symbolic-length "
+             "marker). The value parsers' agreement with the code on arbitrary text (transform, "
              "colour, length, points, viewBox, opacity, path data) is tied to the code by running the character-level Lean model on "
              "the faulted documents: exhaustive grid of 14 element kinds x all fault values of 21 attributes, random documents with 1-3 "
              "faults and retargeted use references, hand-made cycles; exception/no exception and the shapes outside the faulty "
              "subtrees are compared; on the implementation: no exception, and shapes outside the faulty subtrees equal those of the "
              "document with the faulty elements removed.",
-        note="Partial: 'no value parser raises anything for any text' is decided by the correspondence on the fault lists, not by a "
-             "theorem over all strings (C09 proves it for path data, C04 for transform token lists); inside a faulty element's subtree "
+        note="Partial: the no-abort theorems are about the model; that the code's value parsers behave like the model's on malformed "
+             "text is what the correspondence on the fault lists establishes (path data is not parsed by renderDoc; C09 proves its "
+             "totality separately); inside a faulty element's subtree "
              "only presence and order are compared. em/ex/vw lengths and percentages in transform functions are valid values the "
              "library keeps symbolic (a later reify may raise ValueError): outside the fault model. A root element with display:none "
              "makes parse return None. Six fix: commits (too few transform arguments, cyclic use, unparsable transform attribute, "
